@@ -305,22 +305,27 @@ class Server(base_server.BaseServer):
                 self._log_error_once(f'Invalid session {sid}', 'bad-sid')
                 r = self._bad_request(f'Invalid session {sid}')
             else:
-                socket = self._get_socket(sid)
                 try:
-                    socket.handle_post_request(environ)
-                    r = self._ok(jsonp_index=jsonp_index)
-                except exceptions.EngineIOError:
-                    if sid in self.sockets:  # pragma: no cover
-                        socket.close(
-                            wait=False,
-                            reason=self.reason.SERVER_DISCONNECT)
-                        self.sockets.pop(sid, None)
-                    r = self._bad_request()
-                except:  # pragma: no cover
-                    # for any other unexpected errors, we log the error
-                    # and keep going
-                    self.logger.exception('post request handler error')
-                    r = self._ok(jsonp_index=jsonp_index)
+                    socket = self._get_socket(sid)
+                except KeyError as e:  # pragma: no cover
+                    self._log_error_once(f'{e} {sid}', 'bad-sid')
+                    r = self._bad_request(f'{e} {sid}')
+                else:
+                    try:
+                        socket.handle_post_request(environ)
+                        r = self._ok(jsonp_index=jsonp_index)
+                    except exceptions.EngineIOError:
+                        if sid in self.sockets:  # pragma: no cover
+                            socket.close(
+                                wait=False,
+                                reason=self.reason.SERVER_DISCONNECT)
+                            self.sockets.pop(sid, None)
+                        r = self._bad_request()
+                    except:  # pragma: no cover
+                        # for any other unexpected errors, we log the error
+                        # and keep going
+                        self.logger.exception('post request handler error')
+                        r = self._ok(jsonp_index=jsonp_index)
         elif method == 'OPTIONS':
             r = self._ok()
         else:
